@@ -169,6 +169,7 @@ func runC02(w *W) {
 }
 
 func runC03(w *W) {
+	c03JsonProbe(w) // non-finite literal spellings × positions × wrappers through json.Marshal (p_c03json.go; model DC.Model.Marshal)
 	cal := calibrate(w, false)
 	fuzzSpace(w, func(c fuzzCase) {
 		if c.Bomb {
